@@ -27,20 +27,26 @@ Definition cnum (n1 n2 : Z) : Z := Z.gcd n1 n2.
 Definition cden (d1 d2 : Z) : Z := Z.lcm d1 d2.
 (* how many ticks of the common period g/l make one tick of n/d (an exact quotient) *)
 Definition ticks (n d g l : Z) : Z := (n * l) / (d * g).
-(* the count of c ticks of n1/d1 expressed in the common period of n1/d1 and n2/d2 *)
-Definition in_common (n1 d1 n2 d2 c : Z) : Z := c * ticks n1 d1 (cnum n1 n2) (cden d1 d2).
+(* the count of c ticks of n1/d1 expressed in the common period of n1/d1 and n2/d2.
+   (Written, like the predicates below, with the part that depends on the periods only in
+   front of the [fun] over the counts; logically a plain function of all arguments.) *)
+Definition in_common (n1 d1 n2 d2 : Z) : Z -> Z :=
+  let f := ticks n1 d1 (cnum n1 n2) (cden d1 d2) in fun c => c * f.
 
 (** * Arithmetic and comparison of two durations (c1 ticks of n1/d1, c2 ticks of n2/d2) *)
-Definition plus_spec (n1 d1 n2 d2 c1 c2 : Z) : Z := in_common n1 d1 n2 d2 c1 + in_common n2 d2 n1 d1 c2.
-Definition minus_spec (n1 d1 n2 d2 c1 c2 : Z) : Z := in_common n1 d1 n2 d2 c1 - in_common n2 d2 n1 d1 c2.
+Definition plus_spec (n1 d1 n2 d2 : Z) : Z -> Z -> Z :=
+  let a := in_common n1 d1 n2 d2 in let b := in_common n2 d2 n1 d1 in fun c1 c2 => a c1 + b c2.
+Definition minus_spec (n1 d1 n2 d2 : Z) : Z -> Z -> Z :=
+  let a := in_common n1 d1 n2 d2 in let b := in_common n2 d2 n1 d1 in fun c1 c2 => a c1 - b c2.
 (* duration / duration: the truncated quotient of the two rationals *)
 Definition div_spec (n1 d1 n2 d2 c1 c2 : Z) : Z := Z.quot (c1 * n1 * d2) (c2 * n2 * d1).
 (* duration % duration: the remainder, in ticks of the common period *)
-Definition mod_spec (n1 d1 n2 d2 c1 c2 : Z) : Z := Z.rem (in_common n1 d1 n2 d2 c1) (in_common n2 d2 n1 d1 c2).
+Definition mod_spec (n1 d1 n2 d2 : Z) : Z -> Z -> Z :=
+  let a := in_common n1 d1 n2 d2 in let b := in_common n2 d2 n1 d1 in fun c1 c2 => Z.rem (a c1) (b c2).
 Definition eq_spec (n1 d1 n2 d2 c1 c2 : Z) : bool := c1 * n1 * d2 =? c2 * n2 * d1.
 Definition lt_spec (n1 d1 n2 d2 c1 c2 : Z) : bool := c1 * n1 * d2 <? c2 * n2 * d1.
 
-(** * The named durations [time.syn]: period in seconds and minimum number of value bits *)
+(** * The named durations [time.syn]: minimum number of value bits and period in seconds *)
 Definition typedefs_spec : list (Z * Z * Z) :=
   [ (64, 1, 1000000000); (55, 1, 1000000); (45, 1, 1000); (35, 1, 1);
     (29, 60, 1); (23, 3600, 1); (25, 86400, 1); (22, 7 * 86400, 1);
@@ -60,42 +66,57 @@ Definition period_ok (n d : Z) : bool :=
 (* duration_cast from (w1; n1/d1) to (w2; n2/d2) of the count c:
    the source count fits, the two products of the conversion factor fit intmax_t, the count times
    the reduced numerator fits intmax_t, and the truncated result fits the target *)
-Definition cast_ok (w1 n1 d1 w2 n2 d2 c : Z) : bool :=
-  fits w1 c && (n1 * d2 <=? lim64) && (d1 * n2 <=? lim64)
-  && fits 64 (c * ((n1 * d2) / Z.gcd (n1 * d2) (d1 * n2)))
-  && fits w2 (cast_spec n1 d1 n2 d2 c).
+Definition cast_ok (w1 n1 d1 w2 n2 d2 : Z) : Z -> bool :=
+  let a := n1 * d2 in
+  let b := d1 * n2 in
+  let cn := a / Z.gcd a b in
+  let tyok := (a <=? lim64) && (b <=? lim64) in
+  fun c => tyok && fits w1 c && fits 64 (c * cn) && fits w2 (cast_spec n1 d1 n2 d2 c).
 
 (* the common type of the two periods exists and both tick factors are computable *)
 Definition common_ok (n1 d1 n2 d2 : Z) : bool :=
   (cden d1 d2 <=? lim64) && (n1 * cden d1 d2 <=? lim64) && (n2 * cden d1 d2 <=? lim64).
 
 (* both counts fit their own type and, converted to the common type, fit its representation *)
-Definition both_ok (w1 n1 d1 w2 n2 d2 c1 c2 : Z) : bool :=
-  common_ok n1 d1 n2 d2 && fits w1 c1 && fits w2 c2
-  && fits (Z.max w1 w2) (in_common n1 d1 n2 d2 c1) && fits (Z.max w1 w2) (in_common n2 d2 n1 d1 c2).
+Definition both_ok (w1 n1 d1 w2 n2 d2 : Z) : Z -> Z -> bool :=
+  let tyok := common_ok n1 d1 n2 d2 in
+  let a := in_common n1 d1 n2 d2 in
+  let b := in_common n2 d2 n1 d1 in
+  let wc := Z.max w1 w2 in
+  fun c1 c2 => tyok && fits w1 c1 && fits w2 c2 && fits wc (a c1) && fits wc (b c2).
 
-Definition plus_ok (w1 n1 d1 w2 n2 d2 c1 c2 : Z) : bool :=
-  both_ok w1 n1 d1 w2 n2 d2 c1 c2 && fits (Z.max w1 w2) (plus_spec n1 d1 n2 d2 c1 c2).
-Definition minus_ok (w1 n1 d1 w2 n2 d2 c1 c2 : Z) : bool :=
-  both_ok w1 n1 d1 w2 n2 d2 c1 c2 && fits (Z.max w1 w2) (minus_spec n1 d1 n2 d2 c1 c2).
+Definition plus_ok (w1 n1 d1 w2 n2 d2 : Z) : Z -> Z -> bool :=
+  let bo := both_ok w1 n1 d1 w2 n2 d2 in
+  let sp := plus_spec n1 d1 n2 d2 in
+  let wc := Z.max w1 w2 in
+  fun c1 c2 => bo c1 c2 && fits wc (sp c1 c2).
+Definition minus_ok (w1 n1 d1 w2 n2 d2 : Z) : Z -> Z -> bool :=
+  let bo := both_ok w1 n1 d1 w2 n2 d2 in
+  let sp := minus_spec n1 d1 n2 d2 in
+  let wc := Z.max w1 w2 in
+  fun c1 c2 => bo c1 c2 && fits wc (sp c1 c2).
 (* division and modulo: the divisor is not zero and the quotient is representable *)
-Definition div_ok (w1 n1 d1 w2 n2 d2 c1 c2 : Z) : bool :=
-  both_ok w1 n1 d1 w2 n2 d2 c1 c2 && negb (c2 =? 0) && fits (Z.max w1 w2) (div_spec n1 d1 n2 d2 c1 c2).
+Definition div_ok (w1 n1 d1 w2 n2 d2 : Z) : Z -> Z -> bool :=
+  let bo := both_ok w1 n1 d1 w2 n2 d2 in
+  let wc := Z.max w1 w2 in
+  fun c1 c2 => bo c1 c2 && negb (c2 =? 0) && fits wc (div_spec n1 d1 n2 d2 c1 c2).
 
 (* floor / ceil: the cast, the comparison of its result with the argument, and the result *)
-Definition floor_ok (w1 n1 d1 w2 n2 d2 c : Z) : bool :=
-  cast_ok w1 n1 d1 w2 n2 d2 c
-  && both_ok w1 n1 d1 w2 n2 d2 c (cast_spec n1 d1 n2 d2 c)
-  && fits w2 (floor_spec n1 d1 n2 d2 c).
-Definition ceil_ok (w1 n1 d1 w2 n2 d2 c : Z) : bool :=
-  cast_ok w1 n1 d1 w2 n2 d2 c
-  && both_ok w1 n1 d1 w2 n2 d2 c (cast_spec n1 d1 n2 d2 c)
-  && fits w2 (ceil_spec n1 d1 n2 d2 c).
+Definition floor_ok (w1 n1 d1 w2 n2 d2 : Z) : Z -> bool :=
+  let ca := cast_ok w1 n1 d1 w2 n2 d2 in
+  let bo := both_ok w1 n1 d1 w2 n2 d2 in
+  fun c => ca c && bo c (cast_spec n1 d1 n2 d2 c) && fits w2 (floor_spec n1 d1 n2 d2 c).
+Definition ceil_ok (w1 n1 d1 w2 n2 d2 : Z) : Z -> bool :=
+  let ca := cast_ok w1 n1 d1 w2 n2 d2 in
+  let bo := both_ok w1 n1 d1 w2 n2 d2 in
+  fun c => ca c && bo c (cast_spec n1 d1 n2 d2 c) && fits w2 (ceil_spec n1 d1 n2 d2 c).
 (* round: floor, the next tick above it, and the two differences in the common type *)
-Definition round_ok (w1 n1 d1 w2 n2 d2 c : Z) : bool :=
-  floor_ok w1 n1 d1 w2 n2 d2 c
-  && fits w2 (floor_spec n1 d1 n2 d2 c + 1)
-  && minus_ok w1 n1 d1 w2 n2 d2 c (floor_spec n1 d1 n2 d2 c)
-  && minus_ok w2 n2 d2 w1 n1 d1 (floor_spec n1 d1 n2 d2 c + 1) c.
+Definition round_ok (w1 n1 d1 w2 n2 d2 : Z) : Z -> bool :=
+  let fl := floor_ok w1 n1 d1 w2 n2 d2 in
+  let m1 := minus_ok w1 n1 d1 w2 n2 d2 in
+  let m2 := minus_ok w2 n2 d2 w1 n1 d1 in
+  fun c =>
+    fl c && fits w2 (floor_spec n1 d1 n2 d2 c + 1)
+    && m1 c (floor_spec n1 d1 n2 d2 c) && m2 (floor_spec n1 d1 n2 d2 c + 1) c.
 (* abs: everything but the most negative count *)
 Definition abs_ok (w c : Z) : bool := fits w c && fits w (- c).
